@@ -29,6 +29,9 @@ type fedCase struct {
 
 func worldFor(seed int64, domain string) *gen.World {
 	opt := gen.DefaultWorldOptions()
+	if domain == "inputs" {
+		opt.InputArgs = true
+	}
 	if domain == "unions" {
 		opt.UnionBias = true
 	}
